@@ -10,6 +10,8 @@ parametrising M := V diag(w) V^-1 with symbolic V, w): e_i e_j = delta_ij e_i, s
 """
 from fractions import Fraction as Q
 
+import os
+
 import numpy as np
 
 from pyvc import terms as T
@@ -64,18 +66,57 @@ def run(chk):
     for i in range(2):
         for j in range(2):
             m[i, j] = T.var(f"m{i}{j}")
-    exp, lp, lm, ep, em = ad.exp_matrix_2D(m)
     I2 = vnp.eye(2)
     Z2 = vnp.zeros((2, 2))
-    chk.eq_array("C23.2D.ep_em_zero", ep @ em, Z2, fn=fn2, goal="e+ e- == 0", replay=rp)
-    chk.eq_array("C23.2D.em_ep_zero", em @ ep, Z2, fn=fn2, goal="e- e+ == 0", replay=rp)
-    chk.eq_array("C23.2D.ep_idempotent", ep @ ep, ep, fn=fn2, goal="e+^2 == e+", replay=rp)
-    chk.eq_array("C23.2D.em_idempotent", em @ em, em, fn=fn2, goal="e-^2 == e-", replay=rp)
-    chk.eq_array("C23.2D.complete", ep + em, I2, fn=fn2, goal="e+ + e- == 1", replay=rp)
-    chk.eq_array("C23.2D.reconstruct", lp * ep + lm * em, m, fn=fn2, goal="M == l+ e+ + l- e-", replay=rp)
-    chk.eq("C23.2D.trace", lp + lm, m[0, 0] + m[1, 1], fn=fn2, goal="l+ + l- == tr M", replay=rp)
-    chk.eq("C23.2D.det", lp * lm, m[0, 0] * m[1, 1] - m[0, 1] * m[1, 0], fn=fn2, goal="l+ l- == det M", replay=rp)
-    chk.eq_array("C23.2D.exp_is_spectral_sum", exp, em * T.app("exp", lm) + ep * T.app("exp", lp), fn=fn2, goal="exp == e- exp(l-) + e+ exp(l+)", replay=rp)
+    try:
+        generic = ad.exp_matrix_2D(m)
+    except T.Unsupported as e:      # e.g. an implementation that branches on the entries: the generic clause is undecided, the concrete clauses below still speak
+        generic = None
+        chk.error("C23.2D.generic_matrix", f"undecided for a fully symbolic matrix: {e}")
+    if generic is not None:
+        exp, lp, lm, ep, em = generic
+        chk.eq_array("C23.2D.ep_em_zero", ep @ em, Z2, fn=fn2, goal="e+ e- == 0", replay=rp)
+        chk.eq_array("C23.2D.em_ep_zero", em @ ep, Z2, fn=fn2, goal="e- e+ == 0", replay=rp)
+        chk.eq_array("C23.2D.ep_idempotent", ep @ ep, ep, fn=fn2, goal="e+^2 == e+", replay=rp)
+        chk.eq_array("C23.2D.em_idempotent", em @ em, em, fn=fn2, goal="e-^2 == e-", replay=rp)
+        chk.eq_array("C23.2D.complete", ep + em, I2, fn=fn2, goal="e+ + e- == 1", replay=rp)
+        chk.eq_array("C23.2D.reconstruct", lp * ep + lm * em, m, fn=fn2, goal="M == l+ e+ + l- e-", replay=rp)
+        chk.eq("C23.2D.trace", lp + lm, m[0, 0] + m[1, 1], fn=fn2, goal="l+ + l- == tr M", replay=rp)
+        chk.eq("C23.2D.det", lp * lm, m[0, 0] * m[1, 1] - m[0, 1] * m[1, 0], fn=fn2, goal="l+ l- == det M", replay=rp)
+        chk.eq_array("C23.2D.exp_is_spectral_sum", exp, em * T.app("exp", lm) + ep * T.app("exp", lp), fn=fn2, goal="exp == e- exp(l-) + e+ exp(l+)", replay=rp)
+    # concrete complex matrices with well separated eigenvalues, among them some whose discriminant (a-d)^2 + 4bc is purely imaginary or purely real negative: run natively
+    # on the tree under check (complex floats), compared with the spectral definition through the returned projectors and with the power series of exp
+    import subprocess as _sp, sys as _sys, json as _json
+    from pyvc import hook as _hook
+    code = """
+import json, numpy as np
+from ekore import anomalous_dimensions as ad
+cases = {"imaginary_discriminant_diag": [[1+1j, 0], [0, 0]], "imaginary_discriminant_full": [[0.5, 2], [3j, 0.5]], "imaginary_discriminant_triangular": [[2+2j, 1.5], [0, 0]],
+         "negative_discriminant": [[0, 1], [-1, 0]], "generic_complex": [[0.3-0.2j, 1.1+0.4j], [0.7j, -0.9+0.1j]], "real_symmetric": [[1.0, 0.5], [0.5, -0.25]]}
+out = {}
+for name, M in cases.items():
+    M = np.array(M, dtype=complex)
+    try:
+        e, lp, lm, ep, em = ad.exp_matrix_2D(M)
+        ref, term = np.eye(2, dtype=complex), np.eye(2, dtype=complex)
+        for k in range(1, 60):
+            term = term @ M / k
+            ref = ref + term
+        out[name] = dict(exp=float(np.max(np.abs(e - ref))), rec=float(np.max(np.abs(lp * ep + lm * em - M))), comp=float(np.max(np.abs(ep + em - np.eye(2)))), orth=float(np.max(np.abs(ep @ em))))
+    except Exception as ex:
+        out[name] = dict(error=f"{type(ex).__name__}: {ex}")
+print("@@" + json.dumps(out))
+"""
+    env = dict(os.environ, PYTHONPATH=_hook.REPO_SRC[0], NUMBA_DISABLE_JIT="1")
+    pr = _sp.run([_sys.executable, "-c", code], capture_output=True, text=True, env=env, timeout=600)
+    line = next((l for l in pr.stdout.splitlines() if l.startswith("@@")), None)
+    if line is None:
+        chk.error("C23.2D.concrete_complex", f"native run failed: {pr.stderr[-300:]}")
+    else:
+        for name, r in _json.loads(line[2:]).items():
+            ok = "error" not in r and max(r["exp"], r["rec"], r["comp"], r["orth"]) <= 1e-10
+            chk.ground(f"C23.2D.concrete_complex[{name}]", ok, fn=fn2, replay=rp, backend="native-run(bounded)", detail=str(r),
+                       goal="native complex floats: exp equals the power series, M == l+ e+ + l- e-, e+ + e- == 1, e+ e- == 0 (to 1e-10) for a concrete matrix with well separated eigenvalues")
     # structured inputs (exact zeros in the off-diagonal): the closed form must not divide by an exact zero
     for sname, zeros_at in (("upper_triangular", [(1, 0)]), ("lower_triangular", [(0, 1)]), ("diagonal", [(0, 1), (1, 0)])):
         ms = m.copy()
